@@ -903,7 +903,7 @@ pub fn all() -> Vec<Box<dyn Check>> {
         assumptions: vec![
             "refcodec strict decoder implements the MQTT 5.0 client-packet rules correctly",
             "QoS 0 publish is documented as not cancel-safe: the stream after a cancelled QoS 0 publish is not judged",
-            "a transport whose write returns Ok(0) violates embedded-io and is not judged",
+            "a write answered Ok(0) is an ordinary fault (the call reports WriteZero, the handle stays up, the stream must stay whole); only a CONNECT cut short that way is not judged further (the handshake has failed)",
             "user inputs are valid (topics without wildcards, legal reason codes, legal properties)",
         ],
         workloads: vec![("cancel-matrix", 120, 30_000, c01_cancel_heavy as ProfileFn), ("general", 3000, 600_000, general), ("cancel-heavy", 3000, 900_000, c01_cancel_heavy), ("inbound-qos2-full", 300, 30_000, inbound_qos2_full)],
